@@ -155,7 +155,9 @@ def run_property(prop: str, tier: str, repo: str, seed: int, args) -> int:
     if args.write_ledger:
         ledger[prop] = sorted(oid for oid, st in status.items() if st == "proved")
         json.dump(ledger, open(ledger_path, "w"), indent=0, sort_keys=True)
-    missing = [oid for oid in ledger.get(prop, []) if oid not in status] if not args.only else []
+    # vacuity guard: a clause of a contract (post, invariant, lemma) proved before must still be generated; call-site
+    # preconditions are exempt -- they come and go with the calls the code makes
+    missing = [oid for oid in ledger.get(prop, []) if oid not in status and " / call " not in oid] if not args.only else []
     for oid in missing:
         undecided.append(f"obligation in the ledger was not generated on this tree: {oid}")
     if not status and not bounded:
